@@ -590,13 +590,18 @@ def w9(ctx, R, fmt=None, snd=None, rule="W9"):
     send_names = {c.func.attr for c in R.send_sites.get(snd.name, []) if isinstance(c.func, ast.Attribute)}
     checked = 0
     undecided = None
-    for args in (None, [b"a"], [b"a", b"b", b"c"]):
+
+    def F(x):
+        # what the formatter makes of an argument: a quoted form, or - for a value with blanks in it - a literal, which ends with the
+        # value's own last byte
+        return b"{%d+}\r\n" % len(x) + x if (b" " in x or b"\t" in x) else b"<" + x + b">"
+    for args in (None, [b"a"], [b"a", b"b", b"c"], [b"a", b"b \t  c  "], [b" "]):
         for extra in ((None, [b"x", b"yy"]) if pextra else (None,)):
             def oracle(interp, e, name, recv, a, kw, st):
                 if name == "self." + fmt.name or (name and mangle(R.cls.name, name[5:]) == fmt.name):
                     v = a[0] if a else None
                     if isinstance(v, fd.Const) and isinstance(v.v, (list, tuple)):
-                        return [(fd.Const([b"<" + x + b">" for x in v.v]), None)]
+                        return [(fd.Const([F(x) for x in v.v]), None)]
                     return [(fd.Const([]), None)] if isinstance(v, fd.Const) and not v.v else None
                 if name in send_names and a:
                     return [(fd.Const(None), ("send", a[0]))]
@@ -614,7 +619,7 @@ def w9(ctx, R, fmt=None, snd=None, rule="W9"):
             except fd.TooManyPaths:
                 undecided = "path explosion"
                 continue
-            want = b"VERB" + (b" " + b" ".join(b"<" + x + b">" for x in args) if args else b"") + b"\r\n" + b"".join(
+            want = b"VERB" + (b" " + b" ".join(F(x) for x in args) if args else b"") + b"\r\n" + b"".join(
                 x + b"\r\n" for x in (extra or []))
             for p in paths:
                 if p.kind != "return":
